@@ -502,6 +502,7 @@ void harness(void)
 	cb_net_w = 0;
 	cb_calls = 0;
 	sc_pos = 0;
+	tm_live_pfx_writes = tm_live_spki_writes = 0;
 
 	/* ================= the real code ================= */
 	int rc = rtr_sync(&S);
@@ -671,6 +672,27 @@ void harness(void)
 	if (session_mismatch)
 		VASSERT(rc == RTR_ERROR && post_w1 == pre_w1 && post_wk == pre_wk && S.serial_number == S0.serial_number,
 			"C05: a Cache Response whose session differs from the established one fails and applies nothing");
+#endif
+#ifdef ASSERT_C06
+	/* Reduction of C06 (see DESIGN.md): readers hold the table lock for a whole query, so they can only
+	 * observe the live tables between write sections.  During a reload of a cache that already supplied
+	 * data the live tables must therefore be written exactly once each -- by the swap that publishes
+	 * the complete new set -- and not at all when the reload fails.
+	 */
+	if (reload && had_data && !tm_fail_enabled) {
+		if (rc == RTR_SUCCESS) {
+			VASSERT(tm_live_pfx_writes == 1 && tm_live_spki_writes == 1,
+				"C06: during a successful reload the live tables change exactly once each (the swap)");
+			VASSERT(tm_swap_seen_pfx && tm_swap_seen_spki, "C06: the one change is the swap of the complete shadow table");
+		} else {
+			VASSERT(tm_live_pfx_writes == 0 && tm_live_spki_writes == 0,
+				"C06: a failed reload never touches the live tables (readers keep the complete old set)");
+		}
+	}
+	if (reload && rc == RTR_SUCCESS) {
+		/* the published set is complete: exactly the announced records of this cache (e1/e2/ek) */
+		VASSERT(post_w1 == e1 && post_w2 == e2 && post_wk == ek, "C06: the swapped-in tables hold the complete new set");
+	}
 #endif
 #ifdef ASSERT_C13
 	/* (c) hang-up before any session: downgrade and reconnect at once */
